@@ -501,6 +501,21 @@ def run_inv(aa, v, h, w, bits, g, si, sub, ol, seed):
                          "interferometer:operated_mapping_matrix:nonpositive-entries")
             D = np.array(inv.data_vector, dtype=float)
             F = np.array(inv.curvature_matrix, dtype=float)
+            # the same quantities read in the opposite order on a second, identical inversion, and the transformed matrix
+            # re-read after both: the values must not depend on the order of access
+            if route.startswith("factory"):
+                inv2 = aa.Inversion(dataset=ds, linear_obj_list=objs, settings=fix_inv.settings(aa, False, diag=diag))
+            else:
+                inv2 = aa.InversionInterferometerMapping(dataset=ds, linear_obj_list=objs, settings=fix_inv.settings(aa, False, diag=diag))
+            F2 = np.array(inv2.curvature_matrix, dtype=float)
+            D2 = np.array(inv2.data_vector, dtype=float)
+            T2 = np.array(inv2.operated_mapping_matrix)
+            T1 = np.array(inv.operated_mapping_matrix)
+            scD, scF = max(1.0, float(np.abs(D).max())), max(1.0, float(np.abs(F).max()))
+            v.ok(near(D2, D, scD), "interferometer:data_vector:read-order", lambda: "%s: data_vector read after curvature_matrix differs by %s" % (name, dom.maxdiff(D2, D)))
+            v.ok(near(F2, F, scF), "interferometer:curvature_matrix:read-order", lambda: "%s: curvature_matrix read first differs by %s" % (name, dom.maxdiff(F2, F)))
+            v.ok(T1.shape == T2.shape and np.allclose(T1, T2, rtol=1e-12, atol=1e-13) and np.allclose(T2, A @ M if not neg else T2, rtol=1e-9, atol=1e-12),
+                 "interferometer:operated_mapping_matrix:read-order", lambda: "%s: transformed mapping matrix re-read after D and F differs by %s" % (name, dom.maxdiff(T1, T2)))
             for qn, got, ref, pos in (("data_vector", D, D_ref, D_pos), ("curvature_matrix", F, F_ref, F_pos)):
                 sc = max(1.0, float(np.abs(ref).max()), float(np.abs(pos).max()))
                 if near(got, ref, sc):
